@@ -12,6 +12,14 @@ import Orb.Quadtree
       distance is an integer multiple of 2^-2148 (`zOf`, `d2Z`); no float rounding enters the judge.
       The same specification evaluated with float64 distances is used only to classify a failure
       of the exact judge as rounding-sensitive (see `handleHist`).
+  (3) demands that the ARGUMENTS of the caller other than the result buffer come back unchanged: the
+      harness keeps one limits array per history, passes sub-slices of it with `lims...` and reports
+      behind a k-nearest answer `L! <index> <stored bits> <bits now>` when the array does not read
+      what was stored (clause `argument-mutated limit`; the model's side is
+      `Orb.Quadtree.kNearestCall_limits_unchanged`: the limit is a value).
+  Op `histP <mode> …` is `hist` over another kind of orb.Pointer (a family of 11 implementations in
+  harness/c11.go: value structs, uncomparable ones, wrappers, slice / map / func kinds, mixed): the
+  model identifies a pointer by its id, so nothing here depends on the mode but the verdict tag.
 -/
 namespace Driver.C11
 open Orb Orb.Proto Orb.Core Orb.Quadtree
@@ -47,6 +55,9 @@ def opP : P Op := fun ts =>
   | "an" :: ts => pure (.addNil, ts)
   | "ri" :: ts => do let (id, ts) ← nat ts; let (p, ts) ← ptF ts; pure (.remId id p, ts)
   | "rp" :: ts => do let (p, ts) ← ptF ts; pure (.remPt p, ts)
+  -- Remove(the pointer object with this id itself, nil): the default match looks at the POINT only, so
+  -- this is removal by point from that pointer's point (the id names the Go object, nothing else)
+  | "rs" :: ts => do let (_, ts) ← nat ts; let (p, ts) ← ptF ts; pure (.remPt p, ts)
   | "rm" :: ts => do
     let (p, ts) ← ptF ts; let (m, ts) ← nat ts; let (r, ts) ← nat ts; pure (.remMod p m r, ts)
   | "f" :: ts => do let (p, ts) ← ptF ts; pure (.find p, ts)
@@ -419,12 +430,22 @@ def judge (qb : Bound F) (ops : List Op) (results : List Toks) : Verdict :=
           | .ok (cs', _) => { acc with cs := cs', idx := acc.idx + 1, boxRounding := true }
           | .error _ => { acc with err := some (e, acc.idx) }) {}
 
+/-- `res … L! <index> <stored bits> <bits now>`: the harness found the caller's limits array changed
+    after this call.  Returns the answer without the marker, and the marker's arguments. -/
+def splitLimMark (res : Toks) : Toks × Option Toks :=
+  match res.span (· != "L!") with
+  | (a, _ :: m) => (a, some m)
+  | (a, []) => (a, none)
+
 def halfGrid (f : F) : Bool := let g := f * 2; g.floor == g && g.abs ≤ 64
 
 /-- the one feature of a history that the verdict tag names (rotating, so that every feature is counted) -/
-def featureTag (inp : Toks) (qb : Bound F) (ops : List Op) (remMulti : Bool) : String :=
+def featureTag (inp : Toks) (qb : Bound F) (ops : List Op) (remMulti : Bool) (extra : List (String × Bool) := []) : String :=
   let addIds := ops.filterMap fun | .add id _ => some id | _ => none
+  let limits := ops.filterMap fun | .knear _ _ _ _ (some d) => some d.toBits | _ => none
   let feats : List (String × Bool) := [
+    ("limit-slice-passed-again", (limits.zip (limits.drop 1)).any fun (a, b) => a == b),
+    ("remove-stored-object", inp.any (· == "rs")),
     ("rm-among-several", remMulti),
     ("zero-extent-bound", qb.lo.x == qb.hi.x || qb.lo.y == qb.hi.y),
     ("nondyadic-bound", !(halfGrid qb.lo.x && halfGrid qb.lo.y && halfGrid qb.hi.x && halfGrid qb.hi.y)),
@@ -438,12 +459,14 @@ def featureTag (inp : Toks) (qb : Bound F) (ops : List Op) (remMulti : Bool) : S
   let n := feats.length
   let start := ops.length % n
   let rot := feats.drop start ++ feats.take start
+  -- the `extra` features (size classes) are always named, the others take turns
+  (extra.filter (·.2)).foldl (fun s f => s ++ " " ++ f.1) "" ++
   match rot.find? (·.2) with
   | some (s, _) => " " ++ s
   | none => ""
 
 /-- `hist <bound> <n> op… => res ; res ; … ; T <tree>`   (or `… ; panic` when the library panicked) -/
-def handleHist (inp out : Toks) : String :=
+def handleHist (inp out : Toks) (ptrTag : String := "") : String :=
   match (do
     let (a, i) ← ptF inp
     let (b, i) ← ptF i
@@ -456,7 +479,14 @@ def handleHist (inp out : Toks) : String :=
     -- model run
     let (qm, mres) := ops.foldl (fun (acc : QT F × List String) op =>
       let (q', s) := stepModel acc.1 op; (q', acc.2 ++ [s])) (⟨qb, .nil⟩, [])
-    let parts := splitSemi out
+    let parts0 := splitSemi out
+    -- the caller's limits array must read after every call what the caller stored in it (the limit is
+    -- a VALUE of the model: `Orb.Quadtree.kNearestCall_limits_unchanged`)
+    let marks := parts0.map splitLimMark
+    let parts := marks.map (·.1)
+    let argMut : Option (Nat × Toks) := (marks.zipIdx.filterMap fun ((_, m), i) => m.map fun m => (i, m)).head?
+    let argMsg : Nat → Toks → String := fun i m =>
+      s!"propfail argument-mutated limit op#{i} element {m.getD 0 "?"} stored {m.getD 1 "?"} reads {m.getD 2 "?"}"
     -- a library panic ends the history: `res … ; panic`
     if parts.getLast? == some ["panic"] then
       let i := parts.length - 1
@@ -464,9 +494,11 @@ def handleHist (inp out : Toks) : String :=
       -- the answers before the panic are judged like any others
       let opsB := ops.take i
       let vB := if ptFinite qb.lo && ptFinite qb.hi && opsB.all opFinite then judge qb opsB (parts.take i) else {}
-      match vB.err with
-      | some (e, j) => s!"propfail {e} op#{j}"
-      | none =>
+      match vB.err, argMut with
+      | some (e, j), some (a, m) => if a ≤ j then argMsg a m else s!"propfail {e} op#{j}"
+      | some (e, j), none => s!"propfail {e} op#{j}"
+      | none, some (a, m) => argMsg a m
+      | none, none =>
         if i < ops.length && before == mres.take i && mres[i]? == some "panic" then
           -- implementation and model agree up to and including the panic, and the model attributes it to
           -- make(maxHeap, 0, k+1) for an unallocatable k
@@ -487,6 +519,12 @@ def handleHist (inp out : Toks) : String :=
     if !(ptFinite qb.lo && ptFinite qb.hi && ops.all opFinite) then fin "skip nonfinite-query-input" else
     -- spec run on the implementation's answers, exact distances
     let v := judge qb ops results
+    match (match v.err, argMut with
+      | some (_, i), some (a, m) => if a ≤ i then some (a, m) else none
+      | none, some (a, m) => some (a, m)
+      | _, none => none) with
+    | some (a, m) => argMsg a m
+    | none =>
     match v.err with
     | some (e, i) =>
       -- Add accepted a point with a NaN coordinate (Bound.Contains has only negated comparisons):
@@ -509,7 +547,16 @@ def handleHist (inp out : Toks) : String :=
              else
                let hasRem := ops.any fun | .remId _ _ | .remPt _ | .remMod _ _ _ => true | _ => false
                if ops.length ≤ 1 then "ok triv"
-               else (if hasRem then "ok hist-with-removal" else "ok hist") ++ featureTag inp qb ops v.remMulti
+               else
+                 -- a k-nearest answer longer than the heap's first allocation (min(k,63)+1 items), and one
+                 -- longer than 256; a tree of more than 300 pointers
+                 let kLens := (ops.zip results).filterMap fun (op, res) =>
+                   match op with | .knear _ _ _ _ _ => res.head?.bind String.toNat? | _ => none
+                 let extra : List (String × Bool) := [
+                   ("heap-grown", kLens.any (· ≥ 65)),
+                   ("knearest-over-256", kLens.any (· ≥ 257)),
+                   ("tree-over-300", v.cs.length > 300)]
+                 (if hasRem then "ok hist-with-removal" else "ok hist") ++ ptrTag ++ featureTag inp qb ops v.remMulti extra
          | none => "bad tree")
       | _ => "bad tree-token"
 
@@ -519,6 +566,9 @@ def handle (ts : Toks) : String :=
     let (inp, out) := splitArrow rest
     match op with
     | "hist" => handleHist inp out
+    -- `histP <mode> …`: the same history over another kind of orb.Pointer (harness/c11.go `mkPtr`);
+    -- the model identifies a pointer by its id, so the verdict may not depend on the kind
+    | "histP" => handleHist (inp.drop 1) out (" ptr-" ++ (inp.headD "?"))
     | "trunc" => "skip exhaustive-truncated " ++ " ".intercalate (inp.take 2)
     | _ => "bad op " ++ op
   | [] => "bad empty"
